@@ -25,20 +25,43 @@ def sem_post(sid, tmp, out):
         res = {}
     pids = set(res.get("pids", [])) | {sid}
     t0 = time.time()
+    try:
+        stale = {"/dev/shm/" + n for n in open(os.path.join(tmp, "pre_shm.txt")).read().split("\n")}
+    except OSError:
+        stale = set()
     lingering = runner.session_pids(sid)
-    before = _sems(pids | set(lingering))
+    before = [x for x in _sems(pids | set(lingering)) if x not in stale]
     for p in lingering:
         try:
             os.kill(p, signal.SIGKILL)
         except OSError:
             pass
     pids |= set(lingering)
-    left = _sems(pids)
+    # only names that existed when the root ended are this tree's: process ids are recycled
+    # quickly on a busy machine (pid_max 32768) and a foreign process that inherits one of
+    # these pids creates "loky-<pid>-*" names of its own afterwards
+    ours = set(before)
+    foreign = set()
+    left = [x for x in _sems(pids) if x in ours]
     while left and time.time() - t0 < 12:
         time.sleep(0.1)
-        left = _sems(pids)
+        now = _sems(pids)
+        foreign |= set(now) - ours
+        left = [x for x in now if x in ours]
+    diag = None
+    if left:
+        # who is still there (a process that keeps the tracker's pipe open delays its sweep)
+        diag = []
+        for p in runner.session_pids(sid, exclude_tracker=False):
+            try:
+                cmd = open(f"/proc/{p}/cmdline", "rb").read().replace(b"\0", b" ").decode()[:160]
+                st = open(f"/proc/{p}/stat").read().rsplit(")", 1)[1].split()[0]
+                fds = len(os.listdir(f"/proc/{p}/fd"))
+            except OSError:
+                continue
+            diag.append(dict(pid=p, state=st, cmd=cmd, nfds=fds))
     return dict(sems_at_root_exit=before, left=left, cleaned_after=round(time.time() - t0, 2),
-                lingering=len(lingering))
+                lingering=len(lingering), still_in_session=diag, foreign_names=len(foreign))
 
 
 def c13_cases(tier):
